@@ -553,6 +553,10 @@ func TestC16(t *testing.T) {
 	}
 	for _, by := range []string{"otherURL", "sibPath", "sibQuery", "sibSlash", "sibCase"} {
 		for _, where := range []string{"bare origin", "not the bare origin"} {
+			// another spelling of the same URL (host case; "" against "/") is left open by the model: nothing is required there
+			if by == "sibCase" || (by == "sibSlash" && where == "bare origin") {
+				continue
+			}
 			if urlDim[by+", "+where] == 0 {
 				rep.Break("vacuous: no fresh session token minted by deployment class %s is presented to a deployment at %s", by, where)
 				return
